@@ -1,6 +1,7 @@
 //! C07: searches terminate; limit errors only when the limit is really exceeded.
 
 use crate::common::*;
+use crate::counts;
 use crate::engine::{self, Out};
 use crate::props::c05::unr_space;
 use crate::refsweep::weight;
@@ -210,13 +211,18 @@ pub fn run_c07(cx: &Ctx) -> i32 {
         t
     });
     t.merge(Tally::merge_all(tall));
+    let (dense, top) = if cx.quick() { (600, 5_000) } else { (2000, 5_000) };
+    let t4 = counts::sweep(counts::Which::C07, dense, top);
+    t.count("large_count_sweep_programs", t4.programs);
+    t.count("large_count_sweep_evaluations", t4.evaluations);
+    t.merge(t4);
     finish(
         cx,
         t,
         Finish {
             rule: format!(
-                "every pattern of {} (F1 and conditionals included) x every text over {:?} up to length {} x every offset x backtrack limits {:?} and B-1, B, B+1 where B is the number of backtracks of the unlimited run read through hook H1; oracle: (a) result(L) is BacktrackLimitExceeded or equal to the unlimited result; (b) L >= B implies the unlimited result; (c) with default limits and a reference exploration of at most {} steps no StackOverflow / BacktrackLimitExceeded (hook horizons: fuel {}, branch stack {} - a run that hits them is reported, not waited for); (d) instructions and branch-stack depth <= 4*(B+2)*(chars+2)*(|prog|+2); non-trivial = VM-compiled cases with B >= 1; plus a tall pass (every context x one-node fillers over long regular texts up to 32 / 64 characters, default limits) for oracle (c)",
-                space.describe(), alphabet, max_len, fixed_limits, TINY, FUEL, STACK_CAP
+                "every pattern of {} (F1 and conditionals included) x every text over {:?} up to length {} x every offset x backtrack limits {:?} and B-1, B, B+1 where B is the number of backtracks of the unlimited run read through hook H1; oracle: (a) result(L) is BacktrackLimitExceeded or equal to the unlimited result; (b) L >= B implies the unlimited result; (c) with default limits and a reference exploration of at most {} steps no StackOverflow / BacktrackLimitExceeded (hook horizons: fuel {}, branch stack {} - a run that hits them is reported, not waited for); (d) instructions and branch-stack depth <= 4*(B+2)*(chars+2)*(|prog|+2); non-trivial = VM-compiled cases with B >= 1; plus a tall pass (every context x one-node fillers over long regular texts up to 32 / 64 characters, default limits) for oracle (c); plus a {}",
+                space.describe(), alphabet, max_len, fixed_limits, TINY, FUEL, STACK_CAP, counts::describe(counts::Which::C07, dense, top)
             ),
             exhaustive: true,
             bounds: jobj! {"space" => space.describe(), "max_text_len" => max_len, "node_bound" => k},
